@@ -337,6 +337,15 @@ func eachDERMutant(seed []byte, fn func(desc string, m []byte)) int {
 				m = append(m, 0, 0)
 				m = append(m, seed[n.Off+n.Hdr+n.Len:]...)
 				emit(id+"/ber-indef-eoc", m)
+				// malformed end-of-contents: a single zero octet, three zero octets, 00 01
+				for _, eoc := range [][]byte{{0}, {0, 0, 0}, {0, 1}, {}} {
+					m2 := append([]byte{}, seed[:lenPos]...)
+					m2 = append(m2, 0x80)
+					m2 = append(m2, seed[n.Off+n.Hdr:n.Off+n.Hdr+n.Len]...)
+					m2 = append(m2, eoc...)
+					m2 = append(m2, seed[n.Off+n.Hdr+n.Len:]...)
+					emit(fmt.Sprintf("%s/ber-indef-eoc=%x", id, eoc), m2)
+				}
 			}
 		}
 		for _, tg := range tagSwaps {
@@ -425,6 +434,30 @@ func eachDERMutant(seed []byte, fn func(desc string, m []byte)) int {
 			}
 		}
 		*r.parent = orig
+	}
+	// the whole artefact re-encoded with indefinite lengths on every constructed element (BER), and every truncation
+	// of that re-encoding (incomplete end-of-contents markers at every nesting level)
+	if len(seed) <= 8192 {
+		var enc func(n *DERNode) []byte
+		enc = func(n *DERNode) []byte {
+			if n.Children == nil || !n.Constructed {
+				return n.Serialize()
+			}
+			out := append(append([]byte{}, n.Tag...), 0x80)
+			for _, c := range n.Children {
+				out = append(out, enc(c)...)
+			}
+			return append(out, 0, 0)
+		}
+		var ber []byte
+		for _, r := range roots {
+			ber = append(ber, enc(r)...)
+		}
+		emit("ber/all-indefinite", ber)
+		lim := len(ber)
+		for l := lim - 1; l >= 0 && l >= lim-600; l-- {
+			emit(fmt.Sprintf("ber/all-indefinite/trunc=%d", l), append([]byte{}, ber[:l]...))
+		}
 	}
 	// deep nesting probes
 	for _, d := range []int{100, 10000} {
